@@ -33,7 +33,15 @@ pub fn check(r: &RunResult, rep: &mut Report) {
 	let mut known: BTreeMap<String, StatSnap> = BTreeMap::new();
 	for pf in w.plan.world.pre_files.iter() {
 		if let Some(p) = super::super::toml_emit::path_of(&w.plan, &w.scratch, &pf.target) {
-			known.insert(p, StatSnap { mode: pf.mode.unwrap_or(0o600), uid: my_uid, gid: my_gid, len: 0 });
+			known.insert(
+				p,
+				StatSnap {
+					mode: pf.mode.unwrap_or(0o600),
+					uid: my_uid,
+					gid: my_gid,
+					len: 0,
+				},
+			);
 		}
 	}
 	let mut open_existed: BTreeMap<u64, bool> = BTreeMap::new();
@@ -47,7 +55,8 @@ pub fn check(r: &RunResult, rep: &mut Report) {
 						if let Some(items) = v["patch"].as_array() {
 							for it in items {
 								if it["k"] == "global_modes" {
-									g.cert_file_mode = it["cert_file_mode"].as_u64().map(|x| x as u32);
+									g.cert_file_mode =
+										it["cert_file_mode"].as_u64().map(|x| x as u32);
 									g.pk_file_mode = it["pk_file_mode"].as_u64().map(|x| x as u32);
 								}
 							}
@@ -55,40 +64,103 @@ pub fn check(r: &RunResult, rep: &mut Report) {
 					}
 				}
 			}
-			Ev::FsOpen { id, write: true, existed, .. } => {
+			Ev::FsOpen {
+				id,
+				write: true,
+				existed,
+				..
+			} => {
 				open_existed.insert(*id, *existed);
 			}
-			Ev::FsClose { id, path, stat: Some(st), .. } => {
+			Ev::FsClose {
+				id,
+				path,
+				stat: Some(st),
+				..
+			} => {
 				let sel = super::super::fs::selector(w, std::path::Path::new(path));
 				let ftype = sel.split(':').next().unwrap_or("").to_string();
 				let (cfg_mode, user, group) = match ftype.as_str() {
 					"account" => (0o600u32, None, None),
-					"pk" => (g.pk_file_mode.unwrap_or(0o600), g.pk_file_user.clone(), g.pk_file_group.clone()),
-					"crt" => (g.cert_file_mode.unwrap_or(0o644), g.cert_file_user.clone(), g.cert_file_group.clone()),
+					"pk" => (
+						g.pk_file_mode.unwrap_or(0o600),
+						g.pk_file_user.clone(),
+						g.pk_file_group.clone(),
+					),
+					"crt" => (
+						g.cert_file_mode.unwrap_or(0o644),
+						g.cert_file_user.clone(),
+						g.cert_file_group.clone(),
+					),
 					_ => continue,
 				};
 				rep.nontrivial = true;
 				let existed = open_existed.get(id).copied().unwrap_or(false);
 				let prev = known.get(path).cloned();
-				rep.probe(&format!("c13.{}.{}", ftype, if existed { "rewrite" } else { "create" }), 1);
+				rep.probe(
+					&format!(
+						"c13.{}.{}",
+						ftype,
+						if existed { "rewrite" } else { "create" }
+					),
+					1,
+				);
 				// mode: open(2) applies it at creation only, masked by the umask
-				let want_mode = if existed { prev.as_ref().map(|p| p.mode).unwrap_or(st.mode) } else { cfg_mode & !umask & 0o7777 };
+				let want_mode = if existed {
+					prev.as_ref().map(|p| p.mode).unwrap_or(st.mode)
+				} else {
+					cfg_mode & !umask & 0o7777
+				};
 				if st.mode != want_mode {
-					rep.add(Violation::new("C13", "file_mode", if existed { "rewrite_changed_mode" } else { "creation_mode" }, &ftype, format!("{} has mode {:o}, expected {:o} (configured {:o}, umask {:o})", sel, st.mode, want_mode, cfg_mode, umask)));
+					rep.add(Violation::new(
+						"C13",
+						"file_mode",
+						if existed {
+							"rewrite_changed_mode"
+						} else {
+							"creation_mode"
+						},
+						&ftype,
+						format!(
+							"{} has mode {:o}, expected {:o} (configured {:o}, umask {:o})",
+							sel, st.mode, want_mode, cfg_mode, umask
+						),
+					));
 				}
 				if ftype != "crt" && !existed && (st.mode & 0o077) != 0 && (cfg_mode & 0o077) == 0 {
-					rep.add(Violation::new("C13", "secret_file_readable_by_others", "", &ftype, format!("{:o}", st.mode)));
+					rep.add(Violation::new(
+						"C13",
+						"secret_file_readable_by_others",
+						"",
+						&ftype,
+						format!("{:o}", st.mode),
+					));
 				}
 				// owner: chown(2) on every write of key and certificate files when configured
 				let base_uid = prev.as_ref().map(|p| p.uid).unwrap_or(my_uid);
 				let base_gid = prev.as_ref().map(|p| p.gid).unwrap_or(my_gid);
-				let want_uid = user.as_ref().and_then(|u| lookup("/etc/passwd", u)).unwrap_or(base_uid);
-				let want_gid = group.as_ref().and_then(|u| lookup("/etc/group", u)).unwrap_or(base_gid);
+				let want_uid = user
+					.as_ref()
+					.and_then(|u| lookup("/etc/passwd", u))
+					.unwrap_or(base_uid);
+				let want_gid = group
+					.as_ref()
+					.and_then(|u| lookup("/etc/group", u))
+					.unwrap_or(base_gid);
 				if user.is_some() || group.is_some() {
 					rep.probe("c13.owner_configured", 1);
 				}
 				if my_uid == 0 && (st.uid != want_uid || st.gid != want_gid) {
-					rep.add(Violation::new("C13", "file_owner", "", &ftype, format!("{} is owned by {}:{}, expected {}:{} (configured {:?}:{:?})", sel, st.uid, st.gid, want_uid, want_gid, user, group)));
+					rep.add(Violation::new(
+						"C13",
+						"file_owner",
+						"",
+						&ftype,
+						format!(
+							"{} is owned by {}:{}, expected {}:{} (configured {:?}:{:?})",
+							sel, st.uid, st.gid, want_uid, want_gid, user, group
+						),
+					));
 				}
 				known.insert(path.clone(), st.clone());
 			}
